@@ -131,6 +131,33 @@ def _run_schedules(binp, scheds, d, tag="s", timeout=1800, env=None):
     return out
 
 
+def run_free(binp, sched, variant, d, tag="free", still=30):
+    """The configuration of a schedule on the real scheduler and the real clock (harness/pipedrv/free.go); one process."""
+    inp = os.path.join(d, "%s_%s_in.jsonl" % (tag, variant))
+    outp = os.path.join(d, "%s_%s_out.jsonl" % (tag, variant))
+    with open(inp, "w") as f:
+        f.write(json.dumps(dict(sched, id=0, cfg=norm_cfg(sched["cfg"]))) + "\n")
+    p = common.run_bin(binp, ["-test.run", "TestFree", "-test.timeout", "20m"], env=dict(VERIF_IN=inp, VERIF_OUT=outp, VERIF_VARIANT=variant, VERIF_STILL_S=still), timeout=1500)
+    t = None
+    if os.path.exists(outp):
+        for line in open(outp):
+            try:
+                t = json.loads(line)
+            except Exception:
+                pass
+    text = p.stdout + p.stderr
+    if t is None:
+        if not is_lib_panic(text):
+            raise Infra("free run died without a library panic:\n" + text[-2000:])
+        s = dict(sched, cfg=norm_cfg(sched["cfg"]))
+        t = {"id": 0, "cfg": s["cfg"], "outs": [], "wins": [], "crash": True, "crash_msg": panic_head(text), "sched": s, "origin": sched.get("origin", "") + "+free"}
+    t.setdefault("crash", False)
+    t["free"] = variant
+    t["nin"] = nin(t["cfg"])
+    t["cfg"] = norm_cfg(t["cfg"])
+    return t
+
+
 def is_lib_panic(text):
     if "panic:" not in text and "fatal error:" not in text:
         return False
